@@ -597,12 +597,19 @@ impl<'r, 'c, 's, W: Write> DatumSerializer<'r, 'c, 's, W> {
 				};
 				self.state.writer.write_all(buf).map_err(SerError::io)
 			}
-			SchemaNode::Enum(_) => {
+			SchemaNode::Enum(e) => {
+				let discriminant: i64 = num.try_into().map_err(|_| {
+					SerError::new("Number does not fit i64 for encoding as Enum discriminant")
+				})?;
+				let n_symbols: i64 = e.symbols.len().try_into().unwrap_or(i64::MAX);
+				if discriminant < 0 || discriminant >= n_symbols {
+					return Err(SerError::custom(format_args!(
+						"Integer {discriminant} is not a valid discriminant for {e:?}"
+					)));
+				}
 				self.state
 					.writer
-					.write_varint::<i64>(num.try_into().map_err(|_| {
-						SerError::new("Number does not fit i64 for encoding as Enum discriminant")
-					})?)
+					.write_varint::<i64>(discriminant)
 					.map_err(SerError::io)?;
 				Ok(())
 			}
